@@ -3,7 +3,8 @@
    into Gen/Consts.v, Gen/Funcs.v and Gen/Names.v on every run).  Everything here is by
    computation: an edited pattern, suffix, directory name, format string or template makes one of
    these lemmas fail even if every round-trip test in /repo stays green. *)
-From BR Require Import Base.Prelude Gen.Consts Gen.Funcs Gen.Names Model.Names Model.Load.
+From BR Require Import Base.Prelude Gen.Consts Gen.Funcs Gen.Names Model.Names Model.Load
+  Proofs.Names_strings Proofs.Names_roundtrip.
 Open Scope string_scope.
 Open Scope Z_scope.
 
@@ -133,3 +134,62 @@ Lemma grpc_templates_pinned :
   Gen.Names.grpc_Get_assign = [fmt_grpc_read_v1; fmt_grpc_read_v2] /\
   firstn 2 Gen.Names.grpc_UploadFile_assign = [fmt_grpc_write_v1; fmt_grpc_write_v2].
 Proof. split; reflexivity. Qed.
+
+(* ------------------------------------------------------------------ *)
+(* the combined statements of Properties/C20_names.v (model facts + pinned literals) *)
+
+Lemma C20_names_lemma :
+  Gen.Consts.re_disk_re = "^([a-f0-9]{64})(?:-([1-9][0-9]*))?-([0-9a-zA-Z]+)(\.v1)?$" /\
+  Gen.Names.FileLocation_joinfmt = ["raw.v2"; "ac.v2"; "cas.v2/%s/%s-%s.v1"; "cas.v2/%s/%s-%d-%s"] /\
+  Gen.Names.FileLocation_concat = ["-"; "-"] /\
+  (forall k legacy hash size random,
+     is_hash hash = true -> is_random random = true -> 1 <= size <= maxInt64 ->
+     file_location k legacy hash size random =
+       join3 (Gen.EntryKind_DirName (kind_num k)) (take2 hash) (print_name (shape k legacy hash size random)) /\
+     recognise (basename (file_location k legacy hash size random)) = Some (shape k legacy hash size random)) /\
+  (forall name p, recognise name = Some p -> print_name p = name /\ parsed_ok p).
+Proof.
+  split; [reflexivity|]. split; [reflexivity|]. split; [reflexivity|]. split.
+  - intros k legacy hash size random Hh Hr Hs. split; [|apply names_roundtrip; assumption].
+    rewrite file_location_eq. destruct k; reflexivity.
+  - exact recognise_spec.
+Qed.
+
+Lemma C20_name_shapes_lemma :
+  forall hash size random,
+    file_location AC false hash size random = "ac.v2/" ++ take2 hash ++ "/" ++ hash ++ "-" ++ random /\
+    file_location RAW false hash size random = "raw.v2/" ++ take2 hash ++ "/" ++ hash ++ "-" ++ random /\
+    file_location CAS false hash size random = "cas.v2/" ++ take2 hash ++ "/" ++ hash ++ "-" ++ print_dec size ++ "-" ++ random /\
+    file_location CAS true hash size random = "cas.v2/" ++ take2 hash ++ "/" ++ hash ++ "-" ++ random ++ ".v1".
+Proof.
+  intros. unfold file_location, join3, fmt_cas_v1, fmt_cas_v2. cbn [sprintf Ascii.eqb Bool.eqb].
+  rewrite ?app_nil_r_s. repeat split; reflexivity.
+Qed.
+
+Lemma C20_migration_targets_lemma :
+  Gen.Names.migrateDirectory_concat = ["-222444666"; ".v1"] /\
+  Gen.Names.migrateV1Subdir_concat = ["-556677.v1"; "-112233"] /\
+  forall k hash, is_hash hash = true ->
+    recognise (v0_target_name k hash) = Some (mkParsed hash None "222444666" (match k with CAS => true | _ => false end)) /\
+    recognise (v1_target_name k hash) =
+      Some (mkParsed hash None (match k with CAS => "556677" | _ => "112233" end) (match k with CAS => true | _ => false end)).
+Proof.
+  split; [reflexivity|]. split; [reflexivity|]. intros k hash Hh. split.
+  - replace (v0_target_name k hash) with (print_name (mkParsed hash None "222444666" (match k with CAS => true | _ => false end)))
+      by (destruct k; reflexivity).
+    apply recognise_print. repeat split; auto.
+  - replace (v1_target_name k hash) with
+      (print_name (mkParsed hash None (match k with CAS => "556677" | _ => "112233" end) (match k with CAS => true | _ => false end)))
+      by (destruct k; reflexivity).
+    apply recognise_print. repeat split; auto. destruct k; reflexivity.
+Qed.
+
+Lemma C20_backend_literals_lemma :
+  Gen.Names.s3_objectKeyV2_joinfmt = ["cas.v2"] /\ Gen.Names.az_objectKeyV2_joinfmt = ["cas.v2"] /\
+  Gen.Names.http_New_joinfmt = ["%s/cas.v2/%s"; "%s/%s/%s"; "%s/%s/%s"] /\
+  Gen.Names.grpc_Get_assign = ["blobs/%s/%d"; "compressed-blobs/zstd/%s/%d"] /\
+  firstn 2 Gen.Names.grpc_UploadFile_assign = ["uploads/%s/blobs/%s/%d"; "uploads/%s/compressed-blobs/zstd/%s/%d"] /\
+  (forall k, Gen.EntryKind_String (kind_num k) = kind_str k /\ Gen.EntryKind_DirName (kind_num k) = kind_dir k).
+Proof.
+  repeat split; try reflexivity; destruct k; reflexivity.
+Qed.
